@@ -10,7 +10,8 @@ EXTENDS GooseInterface, TraceBatch, TLC, VFloat
 RECURSIVE JoinS(_, _)
 JoinS(args, i) == IF i > Len(args) THEN ""
                   ELSE (IF i > 1 THEN "," ELSE "") \o args[i] \o JoinS(args, i + 1)
-ApplyStr(n, args) == "f" \o ToString(n) \o "(" \o JoinS(args, 1) \o ")"
+ApplyStr(n, args) == IF \E i \in 1..Len(args) : args[i] \in {"!", "ERR"}      \* a poisoned argument: the function raises
+                     THEN "ERR" ELSE "f" \o ToString(n) \o "(" \o JoinS(args, 1) \o ")"
 DrawStr(d, r, pv) == "s"
 
 VARIABLE pool
@@ -18,9 +19,9 @@ BagOfSeq(s) == [v \in SeqToSet(s) |-> Cardinality({i \in 1..Len(s) : s[i] = v})]
 
 TInit ==
   /\ BatchInit
-  /\ N = Hdr.n /\ kind = Hdr.kind /\ inp = Hdr.inp
+  /\ N = Hdr.n /\ kind = Hdr.kind /\ inp = Hdr.inp /\ ord = [i \in 1..Hdr.n |-> i]
   /\ val = Hdr.init /\ flag = [i \in 1..Hdr.n |-> FALSE] /\ dirty = flag
-  /\ auto = TRUE /\ slots = <<>> /\ evald = {}
+  /\ auto = TRUE /\ slots = <<>> /\ evald = {} /\ raised = FALSE
   /\ pool = <<>>
 
 Same == UNCHANGED <<gvars, svars>>
